@@ -221,7 +221,31 @@ func constIndexSites(fn *ssa.Function) []strSliceSite {
 
 // sliceLenLB: lower bound of len(base) at block b by range analysis over len(base) comparisons (canon-equal operands),
 // plus structural knowledge about the producer of base.
+// calleeArgEnv: while a callee's returns are being bounded on behalf of a call, the arguments its parameters stand
+// for (innermost call last): a parameter the callee passes on to a further callee is still the caller's argument.
+type calleeArgBinding struct {
+	params []*ssa.Parameter
+	args   []ssa.Value
+	block  *ssa.BasicBlock
+}
+
+var calleeArgEnv []calleeArgBinding
+
 func sliceLenLB(b *ssa.BasicBlock, base ssa.Value) (int64, string) {
+	if prm, ok := core.StripConv(base).(*ssa.Parameter); ok && len(calleeArgEnv) > 0 {
+		top := calleeArgEnv[len(calleeArgEnv)-1]
+		for i, fp := range top.params {
+			if fp == prm && i < len(top.args) {
+				saved := calleeArgEnv
+				calleeArgEnv = calleeArgEnv[:len(calleeArgEnv)-1]
+				n, why := sliceLenLB(top.block, top.args[i])
+				calleeArgEnv = saved
+				if n > 0 {
+					return n, why
+				}
+			}
+		}
+	}
 	cb := canon(base)
 	isLen := func(v ssa.Value) bool {
 		c, ok := v.(*ssa.Call)
@@ -408,6 +432,8 @@ func calleeLenLB(b *ssa.BasicBlock, base ssa.Value, depth int) (int64, string) {
 		return 0, ""
 	}
 	best := int64(-1)
+	calleeArgEnv = append(calleeArgEnv, calleeArgBinding{g.Params, call.Call.Args, b})
+	defer func() { calleeArgEnv = calleeArgEnv[:len(calleeArgEnv)-1] }()
 	for _, gb := range g.Blocks {
 		ret, ok := gb.Instrs[len(gb.Instrs)-1].(*ssa.Return)
 		if !ok {
@@ -418,12 +444,8 @@ func calleeLenLB(b *ssa.BasicBlock, base ssa.Value, depth int) (int64, string) {
 		}
 		rv := core.StripConv(ret.Results[idx])
 		var n int64
-		if prm, ok := rv.(*ssa.Parameter); ok {
-			for i, fp := range g.Params {
-				if fp == prm && i < len(call.Call.Args) {
-					n, _ = sliceLenLBDepth(b, call.Call.Args[i], depth+1)
-				}
-			}
+		if _, ok := rv.(*ssa.Parameter); ok {
+			n, _ = sliceLenLBDepth(gb, rv, depth+1) // resolved through calleeArgEnv
 		} else {
 			n, _ = sliceLenLBDepth(gb, rv, depth+1)
 		}
